@@ -22,16 +22,16 @@ CONSTS = [0, 1, -1, 2, -3, 5, 0.5, -0.25, 2.0, 4]
 
 
 def floors(tier):
-    return {'distinct_nontrivial': 25000 if tier == 'quick' else 300000, 'objects_evaluated_structurally': 20000,
+    return {'distinct_nontrivial': 15000 if tier == 'quick' else 300000, 'objects_evaluated_structurally': 20000,
             'objects_evaluated_via_sympy': 2000, 'zero_tests_compared': 20000, 'reference_zero_functions_seen': 500,
             'equality_pairs_compared': 5000, 'equal_pairs_seen': 200, 'operand_snapshots_verified': 20000,
             'op_add': 3000, 'op_sub': 3000, 'op_mul': 3000, 'op_div': 2000, 'op_neg': 500, 'op_pow': 800, 'op_inv': 300,
-            'reflected_number_ops': 1500, 'codegen_cases': 300, 'codegen_coefficients_evaluated': 2000}
+            'reflected_number_ops': 1500, 'codegen_cases': 300, 'codegen_coefficients_evaluated': 2000, 'identity_cases': 3000}
 
 
 def plan(tier, seed):
     n = 16 if tier == 'quick' else 64
-    per = 5000 if tier == 'quick' else 16000
+    per = 3000 if tier == 'quick' else 40000
     return [{'trees': per, 'codegen_cases': 40 if tier == 'quick' else 400, 'salt': i} for i in range(n)]
 
 
@@ -203,6 +203,10 @@ def build(ctx, rng, depth, trace, made):
         else:
             c = rng.choice(CONSTS)
             o = rng.choice('+-*/')
+            if o == '/' and kind == 'numR':
+                # x / c is computed as x * (1/c) in floating point: keep 1/c exactly representable (dyadic), otherwise the
+                # arithmetic is inexact by construction and 'exact zero test' is not a meaningful demand
+                c = rng.choice((1, -1, 2, 4, 0.5, -0.25, 2.0, -8))
             ctx.count('reflected_number_ops' if kind == 'numL' else 'number_right_ops')
             rc = r_const(c)
             if kind == 'numL':
@@ -367,6 +371,9 @@ def one_tree(ctx, rng):
     picks = [made[-1]] + ([rng.choice(made)] if len(made) > 1 else [])
     for obj, ref, src in picks:
         check_object(ctx, rng, obj, ref, src, cid)
+    # algebraic identities: the same (zero) function reached along different computation paths must test as zero
+    if len(made) >= 2 and rng.random() < 0.3:
+        identity_cases(ctx, rng, made, cid)
     # equality between produced objects
     if len(made) >= 2:
         for _ in range(3):
@@ -382,6 +389,61 @@ def one_tree(ctx, rng):
                 if not r_equal(r1, r2):
                     ctx.violation('== equates objects denoting different functions', cid + ['eq', s1, s2], left=s1, right=s2,
                                   left_object=structure(o1), right_object=structure(o2))
+
+
+def identity_cases(ctx, rng, made, cid):
+    """P*Q - Q*P, (P+Q)*R - (P*R + Q*R), (P*Q)*R - P*(Q*R), (P+Q)**2 - (P*P + 2*P*Q + Q*Q): identically zero functions built from
+    sub-objects of the tree (and 1 + P style shifts, which mix degrees); zero tests, == and the denoted value are all checked."""
+    small = [m for m in made if r_size(m[1]) <= 8]
+    if len(small) < 2:
+        return
+    (P, rP, sP), (Q, rQ, sQ) = rng.sample(small, 2)
+    (R, rR, sR) = rng.choice(small)
+    if rng.random() < 0.5:
+        c = rng.choice((1, 2, -1, 0.5))
+        try:
+            P, rP, sP = c + P, r_add(r_const(c), rP), f'({c!r} + {sP})'
+        except Exception as e:
+            ctx.note_raised(e, 'identity-shift')
+            return
+    which = rng.choice(('commute', 'distribute', 'associate', 'square', 'sub-self'))
+    try:
+        if which == 'commute':
+            lhs, rhs, src = P * Q, Q * P, f'({sP})*({sQ}) - ({sQ})*({sP})'
+            rl, rr = r_mul(rP, rQ), r_mul(rQ, rP)
+        elif which == 'distribute':
+            lhs, rhs, src = (P + Q) * R, P * R + Q * R, f'(({sP})+({sQ}))*({sR}) - (({sP})*({sR}) + ({sQ})*({sR}))'
+            rl, rr = r_mul(r_add(rP, rQ), rR), r_add(r_mul(rP, rR), r_mul(rQ, rR))
+        elif which == 'associate':
+            lhs, rhs, src = (P * Q) * R, P * (Q * R), f'(({sP})*({sQ}))*({sR}) - ({sP})*(({sQ})*({sR}))'
+            rl, rr = r_mul(r_mul(rP, rQ), rR), r_mul(rP, r_mul(rQ, rR))
+        elif which == 'square':
+            lhs, rhs, src = (P + Q) ** 2, P * P + 2 * (P * Q) + Q * Q, f'(({sP})+({sQ}))**2 - expansion'
+            rl, rr = r_pow(r_add(rP, rQ), 2), r_add(r_add(r_mul(rP, rP), r_mul(r_const(2), r_mul(rP, rQ))), r_mul(rQ, rQ))
+        else:
+            lhs, rhs, src = P + Q, Q + P, f'(({sP})+({sQ})) - (({sQ})+({sP}))'
+            rl, rr = r_add(rP, rQ), r_add(rQ, rP)
+        diff = lhs - rhs
+    except Exception as e:
+        ctx.note_raised(e, 'identity-' + which)
+        return
+    rdiff = r_add(rl, r_neg(rr))
+    if r_size(rdiff) > 300 or r_size(rl) > 150:
+        return
+    ctx.count('identity_cases')
+    ctx.count('identity_' + which)
+    icid = cid + ['identity', which, src]
+    check_object(ctx, rng, diff, rdiff, src, icid)
+    check_object(ctx, rng, lhs, rl, src + ' [lhs]', icid)
+    try:
+        eq = bool(lhs == rhs)
+        ctx.count('equality_pairs_compared')
+        if eq:
+            ctx.count('equal_pairs_seen')
+            if not r_equal(rl, rr):
+                ctx.violation('== equates objects denoting different functions', icid + ['eq'], left=src, left_object=structure(lhs), right_object=structure(rhs))
+    except Exception as e:
+        ctx.note_raised(e, 'identity-eq')
 
 
 def check_object(ctx, rng, obj, ref, src, cid):
